@@ -142,7 +142,8 @@ Proof. exact certificate_ok_opt. Qed.
 Print Assumptions C17_certificate_ok_opt.
 
 (* stDAG's width cache (self.width): for EVERY history of get_width(edges_to_ignore) / compute_max_edge_antichain(weight_function)
-   calls on one object, every answer is what a fresh object answers, whatever the external min-flow engine [solve] computes:
+   calls on one object, every answer is what a fresh object answers, whatever the external min-flow engine [solve] computes -- [solve] is a
+   FUNCTION of the demand vector handed to it (a deterministic engine); an engine that answers the same demands differently is outside it:
    the cached width is read by get_width() with an empty ignore list only. *)
 Theorem C17_width_cache_coherent : forall (s t : node) (solve : (edge -> Z) -> Z) (os : list wop),
   wrun s t solve None os = map (fun o => solve (wop_demand s t o)) os.
